@@ -468,3 +468,115 @@ func VerifC11ParentState() {
 	vassert(e2 == nil, "the resumed run completes")
 	vassert(final == d1+d2+d3, "every update made through the nested graph, before and after the interrupt, reaches the enclosing graph's state")
 }
+
+// the rerun path of the above: the nested node asks for a rerun; the update it makes after the resume reaches the
+// enclosing graph's state
+func VerifC11ParentStateRerun() {
+	ctx := context.Background()
+	vcfg("fifo", 1)
+	vcfg("selectfirst", 1)
+	_ = RegisterSerializableType[c11Deep]("c11_deep")
+	d1, d2 := vsymInt("d1"), vsymInt("d2")
+	attempts := 0
+	final := -1
+	sub := NewGraph[map[string]any, map[string]any]() // no state of its own
+	_ = sub.AddLambdaNode("s", InvokableLambda(func(ctx context.Context, in map[string]any) (map[string]any, error) {
+		attempts++
+		if attempts == 1 {
+			return nil, InterruptAndRerun
+		}
+		err := ProcessState(ctx, func(ctx context.Context, s *c11Deep) error { s.N += d2; return nil })
+		return map[string]any{"s": 1}, err
+	}))
+	_ = sub.AddEdge(START, "s")
+	_ = sub.AddEdge("s", END)
+	g := NewGraph[map[string]any, map[string]any](WithGenLocalState(func(ctx context.Context) *c11Deep { return &c11Deep{} }))
+	_ = g.AddLambdaNode("pre", InvokableLambda(func(ctx context.Context, in map[string]any) (map[string]any, error) {
+		err := ProcessState(ctx, func(ctx context.Context, s *c11Deep) error { s.N += d1; return nil })
+		return in, err
+	}))
+	_ = g.AddGraphNode("sub", sub)
+	_ = g.AddLambdaNode("after", InvokableLambda(func(ctx context.Context, in map[string]any) (map[string]any, error) {
+		err := ProcessState(ctx, func(ctx context.Context, s *c11Deep) error { final = s.N; return nil })
+		return in, err
+	}))
+	_ = g.AddEdge(START, "pre")
+	_ = g.AddEdge("pre", "sub")
+	_ = g.AddEdge("sub", "after")
+	_ = g.AddEdge("after", END)
+	store := &vStoreLite{m: map[string][]byte{}}
+	r, err := g.Compile(ctx, WithCheckPointStore(store))
+	vassert(err == nil, "graph compiles")
+	in := map[string]any{"in": 1}
+	_, e1 := r.Invoke(ctx, in, WithCheckPointID("psr"))
+	_, ok := ExtractInterruptInfo(e1)
+	vassert(ok, "the nested node asks for a rerun")
+	var e2 error
+	if vchoose("stream", 2) == 1 {
+		sr, e := r.Stream(ctx, in, WithCheckPointID("psr"))
+		e2 = e
+		if e == nil {
+			for i := 0; i < 4; i++ {
+				if _, e := sr.Recv(); e != nil {
+					break
+				}
+			}
+			sr.Close()
+		}
+	} else {
+		_, e2 = r.Invoke(ctx, in, WithCheckPointID("psr"))
+	}
+	vassert(e2 == nil, "the resumed run completes")
+	vassert(final == d1+d2, "the update made by the re-run nested node reaches the enclosing graph's state")
+}
+
+// eager run with three state-updating lanes and an interrupt-before node behind the quickest one: the state reported
+// with the interrupt and carried into the resumed run contains the update of every node that had started
+func VerifC11EagerInterrupt() {
+	ctx := context.Background()
+	vcfg("delaybound", 1+vtier())
+	vcfg("selectfirst", 1)
+	vcfg("race", 1)
+	_ = RegisterSerializableType[c11Deep]("c11_deep")
+	started := map[string]int{}
+	lane := func(key string, yields int) *Lambda {
+		return InvokableLambda(func(ctx context.Context, in map[string]any) (map[string]any, error) {
+			vMu.Lock()
+			started[key]++
+			vMu.Unlock()
+			for i := 0; i < yields; i++ {
+				vyield()
+			}
+			err := ProcessState(ctx, func(ctx context.Context, s *c11Deep) error { s.N++; return nil })
+			return map[string]any{key: 1}, err
+		})
+	}
+	post := WithStatePostHandler(func(ctx context.Context, out map[string]any, s *c11Deep) (map[string]any, error) {
+		s.N += 10
+		return out, nil
+	})
+	final := -1
+	wf := NewWorkflow[map[string]any, map[string]any](WithGenLocalState(func(ctx context.Context) *c11Deep { return &c11Deep{} }))
+	wf.AddLambdaNode("a", lane("a", 0), post).AddInput(START)
+	wf.AddLambdaNode("b", lane("b", 1), post).AddInput(START)
+	wf.AddLambdaNode("c", lane("c", 2), post).AddInput(START)
+	wf.AddLambdaNode("z", InvokableLambda(func(ctx context.Context, in map[string]any) (map[string]any, error) {
+		err := ProcessState(ctx, func(ctx context.Context, s *c11Deep) error { final = s.N; return nil })
+		return in, err
+	})).AddInput("a", ToField("a")).AddInput("b", ToField("b")).AddInput("c", ToField("c"))
+	wf.End().AddInput("z")
+	store := &vStoreLite{m: map[string][]byte{}}
+	r, err := wf.Compile(ctx, WithCheckPointStore(store), WithInterruptAfterNodes([]string{"a"}))
+	vassert(err == nil, "workflow compiles")
+	in := map[string]any{"in": 1}
+	_, e1 := r.Invoke(ctx, in, WithCheckPointID("ei"))
+	info, ok := ExtractInterruptInfo(e1)
+	vassert(ok, "the run is interrupted after a")
+	vquiesce()
+	st, _ := info.State.(*c11Deep)
+	n := started["a"] + started["b"] + started["c"]
+	vassert(st != nil && st.N == 11*n, "the state reported with the interrupt holds the body and post-handler update of every node that had started")
+	_, e2 := r.Invoke(ctx, in, WithCheckPointID("ei"))
+	vassert(e2 == nil, "the resumed run completes")
+	vassert(final == 33, "no update is lost across interrupt and resume")
+}
